@@ -1,13 +1,14 @@
 """C31 -- cluster enumeration is complete and cluster identity is geometric (run-time contracts, level B)."""
 from vf.common import Report, finish, SEED
 from vf.rtc import runner, catalogue, samplers
-from contracts import cluster_rt as M
+from contracts import cluster_rt as M, cluster_sx
 
 
 def main(tier):
     rep = Report('C31', tier)
     n = len(catalogue.builders(tier, SEED))
     runner.run(rep, 'makeclusters::contract', M.w_clusters, [(i, tier, SEED) for i in range(n)], 'onsager/cluster.py::makeclusters')
+    cluster_sx.run_all(rep, tier)      # identity of clusters on symbolic lattice vectors: translation / reordering invariance, normal form (level S per label pattern)
     from vf import extract
     for rel, q in [('onsager/cluster.py', 'makeclusters'), ('onsager/cluster.py', 'makeTSclusters'), ('onsager/cluster.py', 'makeVacancyClusters'), ('onsager/cluster.py', 'Cluster.__init__'), ('onsager/cluster.py', 'Cluster.__eq__'), ('onsager/cluster.py', 'Cluster.__hash__'), ('onsager/cluster.py', 'Cluster.istransition')]:
         try:
